@@ -223,3 +223,27 @@ def _mk_pairing(n):
 
 for _n in (1, 2, 3):
     _mk_pairing(_n)
+
+
+# ================================================================================================== combine_stereo itself (C05)
+STREAMS = ("list", "opaque")
+SAMPLE_FULL = ("obj", "smpl_extract.generalized.sample:Sample",
+               {"name": "str", "channel_config": "int", "sample_rate": "int", "num_channels": "int", "num_audio_samples": ("opt", "int"),
+                "data_streams": ("clist", [("obj", "StreamToken", {})]), "loop_regions": ("clist", []), "midi_note": ("const", None), "pitch_offset_semi": ("opt", "int"),
+                "pitch_offset_cents": ("opt", "int"), "_parent": ("const", None), "_path": ("clist", []), "_safe_name": ("opt", "str"),
+                "_export_name": ("opt", "str")})
+
+
+@contract("smpl_extract.generalized.sample:combine_stereo", props=["C05"])
+def _cs_real(c):
+    # what the abstract constructor of the pairing proof assumes, proved of the real function for two mono samples:
+    # a NEW sample whose streams are left's followed by right's, exported under the given name; the inputs are not changed
+    c.param("left", SAMPLE_FULL)
+    c.param("right", SAMPLE_FULL)
+    c.param("new_name", "str")
+    c.ensures("len(result.data_streams) == 2 and result.data_streams[0] is old(left.data_streams[0]) and result.data_streams[1] is old(right.data_streams[0])",
+              "stream-0-is-the-left-sample-stream-1-the-right")
+    c.ensures("result.num_channels == 2 and result._export_name == new_name", "two-channels-under-the-given-name")
+    c.ensures("result is not left and result is not right and len(left.data_streams) == 1 and len(right.data_streams) == 1", "inputs-are-left-as-they-were")
+    c.ensures("result.sample_rate == left.sample_rate", "rate-of-the-left-sample")
+    c.modifies()
